@@ -84,7 +84,23 @@ def rule_iteration_state(ctx):
                         top_exprs.add(id(st["0"]) if "0" in st else id(st.get("expr")))
                 for asg, ps in A.find(body, "Expr::Assign"):
                     root = _root(asg["left"])
-                    if root is None or root in inner or root == "self" and False:
+                    if root is not None and root in inner:
+                        # a name that is only a parameter of a *nested* closure which does not contain this assignment
+                        # shadows nothing here (`attrs.fmt = xs.try_fold(None, |mut attrs, a| ..)?`)
+                        encl = [id(p) for p in ps if A.kind(p) == "Expr::Closure"]
+                        outer_names = set()
+                        for p_ in params:
+                            outer_names.update(A.pat_idents(p_))
+                        for st_, sps in A.find(body, ("Stmt::Local", "Arm", "Expr::Let", "Expr::ForLoop")):
+                            if all(id(q) in encl for q in sps if A.kind(q) == "Expr::Closure"):
+                                outer_names.update(A.pat_idents(st_["pat"]))
+                        for cl_, cps in A.find(body, "Expr::Closure"):
+                            if id(cl_) in encl:
+                                for p_ in cl_["inputs"]:
+                                    outer_names.update(A.pat_idents(p_))
+                        if root in outer_names:
+                            continue
+                    elif root is None:
                         continue
                     # nested iteration bodies are judged on their own
                     if any(A.kind(p) == "Expr::Closure" for p in ps[1:]) and kind_ == "for":
@@ -96,6 +112,17 @@ def rule_iteration_state(ctx):
                     const = CONST.match(rhs) is not None
                     uncond = id(asg) in top_exprs
                     ctx.instance(key, sample={"fn": f"{rel}::{fn.qual}", "loop": desc, "assign": f"{lhs} = {rhs[:80]}", "class": "constant flag" if const else "unconditional per-element slot" if uncond else "CONDITIONAL"})
+                    # an unconditional per-element store is fresh only if the new value does not read the slot it replaces
+                    selfread = re.search(r"(?<![\w.])" + re.escape(lhs) + r"(?![\w(])", rhs) is not None
+                    if uncond and selfread and not const:
+                        ctx.report(
+                            key + ":self-read",
+                            ctx.where(f, asg["left"]),
+                            f"`{lhs}` lives outside the iteration body `{desc}` of `{fn.qual}` and its per-element value is computed from its own previous value (`{rhs[-100:]}`): "
+                            "what was stored for an earlier element flows into later ones (e.g. a variant without its own attribute is expanded with the previous variant's format)",
+                            {"loop": desc},
+                        )
+                        continue
                     if const or uncond:
                         continue
                     rk = (rel, fn.qual)
